@@ -1,5 +1,5 @@
 """Property -> rules wiring.  Each function returns kwargs for Ctx.finish()."""
-from . import control, history, descent, warm, degenerate, feasible, plumb, matrix, storage, formulas, penalgebra, misc, extents, blockpen
+from . import control, history, descent, warm, degenerate, feasible, plumb, matrix, storage, formulas, penalgebra, misc, extents, blockpen, cox, reweight
 
 TB = ["CPython ast", "role seeds: positional parameters of BaseSolver._solve and the "
       "fixed slot-method names of the datafit/penalty interface"]
@@ -33,6 +33,7 @@ def c03(A, ctx, tier):
     descent.r_guard(A, ctx, dict(exempt={"FISTA", "PDCD_WS"}, floor=4))
     descent.r_step(A, ctx, dict(floor=12))
     descent.r_ls(A, ctx, dict(floor=12))
+    reweight.r_reweight(A, ctx, dict(floor=9))
     ctx.note("backtracking exhaustion (`else: pass  # TODO` after 20 halvings) keeps the last "
              "trial step: informational, no rule can say what the right fallback is")
     ctx.assume("prox operators are exact and L_k bounds the curvature (C07/C09)")
@@ -190,8 +191,11 @@ def c06(A, ctx, tier):
     penalgebra.r_red(A, ctx, dict(floor=3), rule="R-SIB-GROUP", parts=("group",))
     ctx.assume("value() is compared with its own derivatives and siblings, not with the "
                "docstring formula (parsing maths out of prose would be a text match)")
-    ctx.assume("Cox risk-set recursions (_B_dot_vec, ...) are opaque operators: only the "
-               "outer composition gradient == gradient_sparse == X.T @ raw_grad is decided")
+    cox.r_cox(A, ctx, {}, parts=("grad", "adj", "risk"))
+    ctx.assume("Cox: the outer composition (gradient == gradient_sparse == X.T @ raw_grad) is decided "
+               "for all shapes with the risk-set recursions as opaque operators; the recursions "
+               "themselves are decided on six fixed tie / censoring patterns of 3-5 observations "
+               "(symbolic linear predictor), not for every pattern")
     return dict(explanation="every datafit accessor is lifted to a rational-function normal "
                 "form over (X, y, Xw, hyper-parameters): sibling accessors (dense, CSC, scalar, "
                 "full, X_j.raw_grad) are equal terms, raw_grad / raw_hessian / coordinate "
@@ -254,6 +258,8 @@ def c09(A, ctx, tier):
     formulas.r_sib(A, ctx, dict(floor=12), only=("lipschitz",))
     extents.r_idx(A, ctx, dict(floor=10, floor_typed=10), rule="R-IDX-LIPSCHITZ",
                   select=lambda f: "lipschitz" in f.name)
+    cox.r_cox(A, ctx, {}, rule_prefix="R-COX", parts=("hess",))
+    misc.r_powerstart(A, ctx, {})
     ctx.assume("accuracy of the power method in spectral_norm is numerical and not decided; "
                "spectral norms are opaque atoms keyed by the matrix they are taken of")
     return dict(explanation="coordinate / group / global Lipschitz constants are lifted and "
@@ -267,8 +273,9 @@ def c14(A, ctx, tier):
     penalgebra.r_red(A, ctx, dict(floor=35))
     plumb.r_who(A, ctx, dict(floor=13))
     misc.r_grporder(A, ctx, dict(floor=6))
-    ctx.assume("limit reductions (gamma -> inf, delta -> inf), SLOPE vs L1, Efron vs Breslow "
-               "without ties, Gram vs CD, integer weights vs replicated rows are not decided")
+    cox.r_cox_reduction(A, ctx, dict(floor=15))
+    ctx.assume("limit reductions (gamma -> inf, delta -> inf), SLOPE vs L1, Gram vs CD, integer "
+               "weights vs replicated rows are not decided")
     return dict(explanation="method-by-method equality of lifted terms under the substitution "
                 "that makes the general component coincide with the special one (weights := 1, "
                 "l1_ratio := 1, sample_weights := 1, group accessor at one feature); every "
